@@ -431,3 +431,35 @@ func init() {
 	specialReplays["server/handlers.(*baseHandler).Read#assert:plain-content-not-hidden@h.readBuf.WriteString(line.Content.String())"] = c01EndToEnd(".hidden file line\n", "")
 	specialReplays["server/handlers.(*baseHandler).Read#assert:plain-no-extra-bytes@h.readBuf.WriteString(\"SERVER\")"] = c01EndToEnd("a line\n", "WARN|some server side warning\n")
 }
+
+func init() {
+	// C04: "after a drop the next delivered line reports a percentage below
+	// 100". The abstract counterexample is a ring in which no slot remembers
+	// the drop; the history that produces it on the real code: one matching
+	// line dropped (queue full), 100 non-matching lines, one matching line delivered.
+	specialReplays["io/fs.(*readFile).transmittable#post:drop-is-reported"] = func(P *Program, v *ObligResult) (string, string, bool, error) {
+		fn := fnOfObligation(P, v.Name)
+		g := &goGen{P: P, model: v.Model, pkg: fn.Pkg.Pkg, imports: map[string]bool{"testing": true, "fmt": true, "bytes": true, modPath + "/internal/regex": true}}
+		body := `f := &readFile{canSkipLines: true, globID: "id"}
+		re, _ := regex.New("MATCH", regex.Default)
+		f.updatePosition()
+		if _, ok := f.transmittable(bytes.NewBufferString("MATCH dropped"), 1, 1, re); ok {
+			t.Skip("not dropped")
+		}
+		for i := 0; i < 100; i++ {
+			f.updatePosition()
+			f.transmittable(bytes.NewBufferString("other line"), 0, 1, re)
+		}
+		f.updatePosition()
+		l, ok := f.transmittable(bytes.NewBufferString("MATCH delivered"), 0, 1, re)
+		if !ok {
+			t.Skip("not delivered")
+		}
+		if l.TransmittedPerc >= 100 {
+			panic(fmt.Sprintf("a matching line was dropped, the next delivered line of the file reports %d%% transmitted", l.TransmittedPerc))
+		}`
+		src := g.testFile(fn.Pkg.Pkg, body)
+		out, ok, err := runOverlayTest(P, fn.Pkg.Pkg, src)
+		return src, out, ok, err
+	}
+}
